@@ -16,17 +16,36 @@ CHECK = {
              "differently placed copies of a leaf x 3 operations;  n = near-coincident copies "
              "(sub-tolerance translation / rotation nested inside each transform) x 3 operations;  "
              "p = partition {A&B, A-B, B-A} of a pair as three materials of one unit;  t (thorough) "
-             "= depth-3 trees over 12 leaves.  Each program is built by UnitProto -> InputBuilder "
+             "= depth-3 trees over 12 leaves.  EXTENSION: 5 GenPrism leaves with coincident consecutive "
+             "end-face vertices (kind u, and kind b with 3 partners); kind c under a mirror pair of "
+             "tilts (general quadrics differing only in cross terms); a second construction tolerance "
+             "Tolerance::from_relative(1e-6, 100) (abs 1e-4 != rel 1e-6) for u (implicit/explicit "
+             "global unit), c and n; f = two copies of a leaf at |t|~50 displaced by 4e-3 / 8e-3, both "
+             "tolerances, with directed probes inside the thin one-copy-only regions (boundary "
+             "crossings of the first copy located by oracle bisection along the displacement, probed "
+             "at +-1/2 and +-3/2 displacement); placements selfW / selfD = units made of a boundary "
+             "(the solid itself) and a background only, as global unit and as daughter under 7 "
+             "transforms; h = 4 universes, depth 3, one proto placed twice, deep daughter listed "
+             "last / first.  Each program is built by UnitProto -> InputBuilder "
              "-> OrangeParams and probed on a 9^3 lattice over the world box (x1.08) + a 9^3 "
              "lattice over the box around the materials shifted by irrational fractions of its "
              "spacing; the volume label reported by OrangeTrackView initialisation must equal the "
              "one that follows from the analytic definitions (oracle/solids.hh) for every point "
-             "farther than 10*tol.rel*max(1,L) from every constituent surface.  evaluations = "
+             "farther than 10*max(tol.abs, tol.rel*L) from every constituent surface.  evaluations = "
              "compared probe points; non-trivial = a program whose compared probes fall into >= 2 "
              "different expected regions besides 'outside'.  Parameter values other than the "
              "enumerated ones and points between lattice points are not covered."),
     "assumptions": [
-        "host build, ORANGE geometry, double precision, default construction tolerance 1.5e-8",
+        "host build, ORANGE geometry, double precision; construction tolerances: the default "
+        "(rel = abs = 1.5e-8) everywhere, and Tolerance::from_relative(1e-6, 100) for the families "
+        "marked tol=1",
+        "a global unit whose boundary is the solid itself (selfW) may be refused by UnitProto with "
+        "'global boundary must be finite' (documented validation; e.g. solids with more than half a "
+        "turn removed): counted, not a violation",
+        "two copies of a solid whose surfaces are 40 x tol.abs and 80 x tol.rel*|position| apart are "
+        "different surfaces (SoftEqual's documented comparison |a-b| < max(rel*max(|a|,|b|), abs))",
+        "the Parallelepiped leaves with the recorded defect are left out of the selfW/selfD/h "
+        "families (there the defect would surface without leaf attribution)",
         "oracle = documented definitions of IntersectRegion.hh / Solid.hh / PolySolid.hh / "
         "Transformed.hh / CsgObject.hh / UnitProto.hh (G4Para / G4GenericTrap conventions for "
         "Parallelepiped / GenPrism as the headers state)",
@@ -37,11 +56,18 @@ CHECK = {
         "Involute is out of scope (no closed-form oracle); GenPrism::from_trap only with equal "
         "x half-lengths per face (its hx_lo/hx_hi comment is ambiguous)",
     ],
-    "bounds": {"quick": {"leaves": 50, "probes_per_program": 1458, "depth": 2,
+    "bounds": {"quick": {"leaves": "50 base + 5 extended", "probes_per_program": "1458 (+729 per extra content box in h, + directed probes in f)", "depth": 2,
+                         "tolerances": 2, "hierarchy": "4 universes, depth 3, b in {sph1, pc1}, A under tr",
+                         "far_copies": "4 transform pairs at tol=1, the two 4e-3 pairs at the default tolerance",
+                         "self_daughter_transforms": "alternating half of 7",
+                         "near_coincident_tol1_transforms": "id, tr, gen",
                          "unary_daughter_transforms": "alternating half of 7",
                          "binary_operand_transforms": "tr, gen, (a+b)%10 of 11",
                          "copies_transform_pairs": 5, "partition_operand_transforms": 1},
-               "thorough": {"leaves": 50, "probes_per_program": 1458, "depth": 3, "depth3_leaves": 12,
+               "thorough": {"leaves": "50 base + 5 extended", "probes_per_program": "1458 (+729 per extra content box in h, + directed probes in f)", "depth": 3, "depth3_leaves": 12,
+                            "tolerances": 2, "hierarchy": "4 universes, depth 3, b in {sph1, pc1, box1, cylsh}, A under tr and rx",
+                            "far_copies": "4 transform pairs under both tolerances",
+                            "self_daughter_transforms": 7, "near_coincident_tol1_transforms": 10,
                             "unary_daughter_transforms": 7, "binary_operand_transforms": 11,
                             "copies_transform_pairs": 72, "partition_operand_transforms": 10,
                             "binary_placements": "implicit world / explicit daughter alternating"}},
